@@ -16,7 +16,7 @@ from mc.ref import interp
 
 FLOW_REASONS = {"unresolvable", "type-gate", "construct"}
 ALPHA = [s for s in gen.ALL if s not in gen.DELIBERATE]
-PRIME = [s for s in gen.PRIME if s not in gen.DELIBERATE] + ["probe_r", "tmpl_path", "ren_factor_a", "two"]
+PRIME = ["tmpl_aa", "del_a"] + [s for s in gen.PRIME if s not in gen.DELIBERATE] + ["probe_r", "tmpl_path", "ren_factor_a", "two"]
 
 
 def inspect_prog(prog):
@@ -58,6 +58,8 @@ def _declared_writes(ref: interp.Outcome, j: int) -> set:
     k = sym["kind"]
     if k in ("probe", "slicer_probe"):
         return {sym["ckey"]}
+    if k == "sweep_probe":
+        return {sym["ckey"]} | {f"{v}_values" for v in sym["vars"]}
     if k == "ctx" and sym["op"] in ("rename", "template"):
         return {sym["dst"]}
     if k == "op" and sym.get("proc") == "VCtxWrite":
